@@ -510,3 +510,25 @@ def timeoutField (e : CExpr) (t : Int) : Option Int := (e.eval t).map fun r => C
 def specTimeoutNs (t : Int) : Int := t * 1000000000
 
 end YaraModel.Limits
+
+namespace YaraModel.Limits
+open YaraModel.Gen.Limits
+
+/-! ## 12. Configuration storage (libyara.c `yr_cfgs[]`: a union of `uint32_t ui32` / `uint64_t ui64`, little endian) -/
+
+/-- the 64 bits of one `yr_cfgs[]` slot after writing `v` through a member of `member` bits (32: only the low word changes) -/
+def cfgWrite (member cast : Nat) (old v : Nat) : Nat :=
+  let x := v % 2 ^ cast                       -- what `*(T*) src` reads of the caller's value
+  if member ≥ 64 then x % 2 ^ 64 else (old / 2 ^ 32) * 2 ^ 32 + x % 2 ^ 32
+
+/-- what the caller gets back: the member read, stored through a pointer of `cast` bits -/
+def cfgRead (member cast : Nat) (slot : Nat) : Nat :=
+  (if member ≥ 64 then slot % 2 ^ 64 else slot % 2 ^ 32) % 2 ^ cast
+
+/-- `yr_get_configuration(k, &out)` after `yr_set_configuration(k, &v)` -/
+def cfgRoundTrip (k : CfgKey) (old v : Nat) : Nat := cfgRead k.getMember k.getCast (cfgWrite k.setMember k.setCast old v)
+
+/-- the width of the key's documented type: the width of the typed wrapper that accepts it -/
+def cfgWidth (k : CfgKey) : Nat := k.typedSet
+
+end YaraModel.Limits
